@@ -38,6 +38,7 @@ type edit struct {
 type rule struct {
 	kind string
 	re   *regexp.Regexp
+	repl string
 	n    int
 }
 
@@ -80,6 +81,16 @@ func main() {
 				if r.re == nil {
 					r.re = regexp.MustCompile(`(?i)cond`)
 				}
+			case "textsub":
+				// textsub:<regexp>=><replacement>: plain text substitution,
+				// used to adapt third-party code to the exact fake clock.
+				pat, repl, ok2 := strings.Cut(arg, "=>")
+				if !ok2 {
+					fmt.Fprintf(os.Stderr, "instrument: rule %q needs regexp=>replacement\n", rs)
+					os.Exit(2)
+				}
+				r.re = regexp.MustCompile(pat)
+				r.repl = repl
 			case "calls", "callsafter":
 				if r.re == nil {
 					fmt.Fprintf(os.Stderr, "instrument: rule %q needs a regexp\n", rs)
@@ -156,17 +167,29 @@ func doPackage(repo, dir, out string, rules []*rule, overlay map[string]string) 
 		}
 
 		edits := fileEdits(fset, f, src, filepath.Join(dir, name), rules)
-		if len(edits) == 0 {
+		subbed := false
+		for _, r := range rules {
+			if r.kind != "textsub" {
+				continue
+			}
+			if locs := r.re.FindAllIndex(src, -1); len(locs) > 0 {
+				r.n += len(locs)
+				subbed = true
+			}
+		}
+		if len(edits) == 0 && !subbed {
 			continue
 		}
 
-		// Import on the package clause's line keeps line numbers stable.
-		pkgEnd := fset.Position(f.Name.End()).Offset
-		edits = append(edits, edit{
-			start: pkgEnd,
-			end:   pkgEnd,
-			text:  "; import verifsim \"" + shimPath + "\"",
-		})
+		if len(edits) > 0 {
+			// Import on the package clause's line keeps line numbers stable.
+			pkgEnd := fset.Position(f.Name.End()).Offset
+			edits = append(edits, edit{
+				start: pkgEnd,
+				end:   pkgEnd,
+				text:  "; import verifsim \"" + shimPath + "\"",
+			})
+		}
 
 		sort.SliceStable(edits, func(i, j int) bool { return edits[i].start > edits[j].start })
 
@@ -178,6 +201,12 @@ func doPackage(repo, dir, out string, rules []*rule, overlay map[string]string) 
 			}
 			res = append(append(append([]byte{}, res[:ed.start]...), ed.text...), res[ed.end:]...)
 			lastStart = ed.start
+		}
+
+		for _, r := range rules {
+			if r.kind == "textsub" {
+				res = r.re.ReplaceAll(res, []byte(r.repl))
+			}
 		}
 
 		dst := filepath.Join(out, dir, name)
